@@ -25,7 +25,7 @@ class UnitResult:
         self.gen_path = None
 
 
-def run_unit(unit, repo=REPO, rlimit=None, threads=8, canary=None, suffix='', max_rounds=4, timeout=900):
+def run_unit(unit, repo=REPO, rlimit=None, threads=8, canary=None, suffix='', max_rounds=4, timeout=900, post=None):
     t0 = time.time()
     r = UnitResult(unit)
     disabled = set()
@@ -40,6 +40,8 @@ def run_unit(unit, repo=REPO, rlimit=None, threads=8, canary=None, suffix='', ma
             r.undecided.append('extraction: %s' % e)
             r.wall = time.time() - t0
             return r
+        if post:
+            post(g)
         text = g.text()
         path = os.path.join(GEN, '%s%s.rs' % (unit, suffix))
         with open(path, 'w') as f:
